@@ -119,6 +119,26 @@ class PyDriver:
             raise StateDependent(f'`{kind}` answers differently after the list it returned was modified by the caller')
         return k1
 
+    def reused_arg(self, kind, point, fn, canon):
+        """a coordinate pair is asked (1) as a new tuple and (2) through one list object that carried the previous query of this kind and was
+        overwritten in place (a caller streaming points through a scratch buffer); the answers must be the same"""
+        fresh = canon(fn(point))
+        buf = self.__dict__.setdefault('_bufs', {}).setdefault(kind, [0.0, 0.0])
+        try:
+            fn(buf)                      # the query the buffer still holds
+        except Exception:  # noqa
+            pass
+        buf[0], buf[1] = point[0], point[1]
+        try:
+            again = canon(fn(buf))
+        except Exception as e:  # noqa
+            again = 'raises ' + type(e).__name__
+        if list(buf) != [point[0], point[1]]:
+            raise StateDependent(f'`{kind}` modified the coordinate list passed to it')
+        if again != fresh:
+            raise StateDependent(f'`{kind}` answers differently for a coordinate list that was used in the previous call and overwritten in place than for a new tuple with the same values')
+        return fresh
+
     def dispatch0(self, t):
         op = t[0]
         ser, ci, cp = self.ser, self.ci, self.cp
@@ -205,7 +225,8 @@ class PyDriver:
         if op == 'ij2s':
             return 'ok %d' % self.hb.ij_to_s((bits2f(t[1]), bits2f(t[2])), int(t[3]), t[4])
         if op == 'l2c':
-            return 'ok %d' % self.a5.lonlat_to_cell((bits2f(t[1]), bits2f(t[2])), int(t[3]))
+            p, r = (bits2f(t[1]), bits2f(t[2])), int(t[3])
+            return 'ok %d' % self.reused_arg('lonlat_to_cell', p, lambda q: self.a5.lonlat_to_cell(q, r), lambda v: v)
         if op == 'c2l':
             lo, la = self.a5.cell_to_lonlat(int(t[1]))
             return 'ok %d %d' % (fbits(lo), fbits(la))
@@ -244,8 +265,9 @@ class PyDriver:
         if op in ('dfwd', 'dinv'):
             from a5.core.cell import _dodecahedron
             fn = _dodecahedron.forward if op == 'dfwd' else _dodecahedron.inverse
-            x, y = fn((bits2f(t[1]), bits2f(t[2])), int(t[3]))
-            return 'ok %d %d' % (fbits(x), fbits(y))
+            o = int(t[3])
+            x, y = self.reused_arg('forward' if op == 'dfwd' else 'inverse', (bits2f(t[1]), bits2f(t[2])), lambda q: fn(q, o), lambda v: (fbits(v[0]), fbits(v[1])))
+            return 'ok %d %d' % (x, y)
         if op == 'auth':
             from a5.projections.authalic import AuthalicProjection
             A = AuthalicProjection()
